@@ -12,7 +12,6 @@ package main
 
 import (
 	"encoding/json"
-	"reflect"
 	"flag"
 	"fmt"
 	"go/ast"
@@ -20,6 +19,7 @@ import (
 	"go/token"
 	"os"
 	"path/filepath"
+	"reflect"
 	"sort"
 	"strconv"
 	"strings"
